@@ -6,6 +6,13 @@ import os
 VERIF = os.path.dirname(os.path.dirname(os.path.abspath(__file__)))
 
 CHECKS = {
+    "C06": dict(
+        category="model_checking",
+        technique="TLA+ spec Capture (writer / pipe / pump thread / copier thread with its four-step append on a buffer with one shared file position / polling reader; all interleavings) checked by TLC for PrefixAlways, Complete, BufferExact, EOFOnlyAfterAll, NoDeadlock and Termination under per-thread fairness; real captured commands run while the schedule points of the capture path delay chosen threads; the value the caller receives judged by Capture!ObsJudge (CaptureObsTrace) and the recorded schedule-point events validated against CaptureTrace by TLC",
+        text="TLC decides the design for every interleaving of the four threads at the granularity of the code's own steps (and refutes it when the reader may run inside the copier's append - the defect this check found and /repo now repairs). The code is bound in two ways: hundreds of real captures (7 payload kinds x 10 sizes around the 1024-byte read size and the 64 KiB pipe buffer x chunkings, exit codes and timings x 6 stage compositions x threaded/unthreaded/default x $(), !().out/.raw_out/.rtn, iteration) run while one or two of 13 schedule points are delayed, each compared byte for byte with what the final stage was told to write, with a pipe standing in for the terminal that must stay empty; and the events recorded at the schedule points of the threaded runs must be a behaviour of CaptureTrace (bytes conserved pipe -> queue -> buffer -> caller, append never interleaved, saved position never rewound, drained only when everything put was written).",
+        design_ref="3/C06",
+        note="Trusts TLC; schedules are perturbed by delays at the hook points rather than fully controlled (hook guard XONSH_XONSH_VERIF=1); hang = 60 s. One defect repaired (fix: commit), two text-view defects are known findings.",
+    ),
     "C17": dict(
         category="model_checking",
         technique="TLA+ spec FmtState (the formatter as a one-pass state machine over token and gap classes: bracket depth, macro modes, subprocess-statement flag, pending blank lines; two passes) checked by TLC for Skeleton, Idempotent, BlankCap over every token stream up to length 3-4; thousands of real sources assembled from statement templates x layouts formatted by the real formatter, output parsed by xonsh's own parser and compared with the input's tree, comments compared, output re-formatted; verdicts validated against FmtStateTrace by TLC; rejected inputs driven through the command-line entry point",
@@ -153,7 +160,7 @@ def main():
             "guard": "XONSH_XONSH_VERIF",
             "enable": "checks import /repo's working tree directly (PYTHONPATH=/repo, /venv/bin/python); hook points are active only when XONSH_XONSH_VERIF=1 is set in the worker environment",
             "baseline_off_cmd": "cd /repo && env -u XONSH_XONSH_VERIF /venv/bin/python -m pytest -ra -q -p no:cacheprovider --timeout=900 --continue-on-collection-errors",
-            "source_commits": ["15cb5b7", "8cef7df"],
+            "source_commits": ["15cb5b7", "8cef7df", "eef0bde"],
             "add_only": True,
         },
         "engines": [
